@@ -429,7 +429,7 @@ func buildRaw(root string, v Vars, o buildOpts) *buildResult {
 		}
 		res.Executed = map[string]bool{}
 		for _, s := range res.Steps {
-			for _, t := range []string{tGen, tMid, tTop, tLeaf, tOther, tColon} {
+			for _, t := range []string{tGen, tMid, tTop, tLeaf, tOther, tColon, tOtherAll} {
 				if bodyName(t) == s {
 					res.Executed[t] = true
 				}
@@ -494,7 +494,7 @@ func dryThenRealSameProject(root string, v Vars, target string) *buildResult {
 	res.Steps = be.steps
 	res.After = readTree(root)
 	for _, s := range be.steps {
-		for _, t := range []string{tGen, tMid, tTop, tLeaf, tOther, tColon} {
+		for _, t := range []string{tGen, tMid, tTop, tLeaf, tOther, tColon, tOtherAll} {
 			if bodyName(t) == s {
 				res.Executed[t] = true
 			}
